@@ -30,9 +30,10 @@ type Tape struct {
 	Conf          gk.ConfModel  `json:"conf"`
 	Cred          string        `json:"cred"` // keytab | password
 	AssumePreauth bool          `json:"assume_preauth,omitempty"`
-	OneKeyOnly    bool          `json:"one_key_only,omitempty"`  // the keytab user has a key for the first configured ticket etype only (an aes256-only account, say)
-	PreauthPref   int           `json:"preauth_pref,omitempty"`  // preferred_preauth_types in krb5.conf (0 = the first ticket etype)
-	UserKvno      int           `json:"user_kvno,omitempty"` // key version of the keytab user (0 = 5); beyond 8 bits the keytab carries it in its 32-bit trailer
+	Password      string        `json:"password,omitempty"`     // the user's password ("" = an ASCII one)
+	OneKeyOnly    bool          `json:"one_key_only,omitempty"` // the keytab user has a key for the first configured ticket etype only (an aes256-only account, say)
+	PreauthPref   int           `json:"preauth_pref,omitempty"` // preferred_preauth_types in krb5.conf (0 = the first ticket etype)
+	UserKvno      int           `json:"user_kvno,omitempty"`    // key version of the keytab user (0 = 5); beyond 8 bits the keytab carries it in its 32-bit trailer
 	DisableFAST   bool          `json:"disable_fast,omitempty"`
 	Policy        refkdc.Policy `json:"policy"`
 	Salt          string        `json:"salt,omitempty"`
@@ -49,7 +50,7 @@ func Meta() core.Meta {
 		Engine: "c10", Property: "C10", Level: "exploration",
 		Rule:        "case = one run: a real client configured from a generated krb5.conf (etype lists, forwardable/proxiable/canonicalize, renew_lifetime, ticket_lifetime, noaddresses, transport) with a keytab or password credential or a credential cache written by the reference implementation performs 3-30 operations (login, service-ticket requests for repeated and new SPNs in its own and in foreign realms, waits that land before/at/after ticket and TGT end times, renewal points and renew-till, destroy) against reference KDCs with a drawn policy (pre-authentication and hint layout, salts and iteration counts, maximum lives, optional starttime, address copying) and referral chains of length 0-8 or a cycle; distinct = distinct (configuration class, policy class, operation/outcome sequence); non-trivial = at least one ticket request after a wait, a renewal, a referral or a pre-authentication round trip",
 		SeededQuick: 2500, SeededThorough: 150000,
-		WorkloadProbes: []string{"served-from-cache", "requested-afresh-after-expiry", "tgt-renewed-by-library", "relogin-after-tgt-expiry", "referral-chain-3plus", "referral-cycle", "preauth-with-nondefault-salt", "renewable-requested", "wait-lands-within-1s-of-end", "destroy-then-use", "credential-cache-client"},
+		WorkloadProbes: []string{"served-from-cache", "requested-afresh-after-expiry", "tgt-renewed-by-library", "relogin-after-tgt-expiry", "referral-chain-3plus", "referral-cycle", "preauth-with-nondefault-salt", "renewable-requested", "wait-lands-within-1s-of-end", "destroy-then-use", "credential-cache-client", "password-outside-ascii", "etype-lists-separated-by-commas-or-tabs"},
 		Components: map[string]string{
 			"client.Login/AffirmLogin/GetServiceTicket/GetCachedTicket/Destroy, session auto-renewal goroutines, ticket cache, NewASReq/NewTGSReq/setPAData, network code, krb5.conf parser, keytab parser": "real",
 			"sync in client/session.go, client/cache.go": "shim (seeded yields at every lock boundary)",
@@ -125,10 +126,17 @@ func Gen(caseID, tier string) (json.RawMessage, error) {
 	}
 	c.DomainRealm = map[string]string{".sim.test": "SIM.TEST"}
 	tp.AssumePreauth = r.Chance(1, 5)
+	if r.Chance(1, 5) {
+		// krb5.conf separates the names of encryption types by commas or whitespace
+		c.EtypeSep = r.Pick(", ", ",", " ,  ", "\t")
+	}
+	if tp.Cred == "password" && r.Chance(1, 4) {
+		tp.Password = r.Pick("p\u00e4ssw\u00f6rd-Zt5q", "\u043f\u0430\u0440\u043e\u043b\u044c123", "T\u014dky\u014d\u20ac-Lm8R", "clef-\U0001d11e-8RkV")
+	}
 	if r.Chance(1, 3) {
 		tp.UserKvno = r.PickInt(1, 255, 256, 300, 65537)
 	}
-	if tp.Cred == "keytab" && !tp.AssumePreauth && r.Chance(1, 3) {
+	if tp.Cred == "keytab" && r.Chance(1, 3) {
 		// the account has one key only, and krb5.conf prefers another type for pre-authentication:
 		// what the client has to use is what it negotiated with the KDC
 		tp.OneKeyOnly = true
@@ -159,6 +167,9 @@ func Gen(caseID, tier string) (json.RawMessage, error) {
 	p.KvnoInReply = r.Chance(1, 2)
 	p.TktEtype = r.PickInt(0, 18, 17, 20, 23)
 	p.ExpiryGraceS = int64(r.PickInt(0, 300))
+	p.TerseErrors = r.Chance(1, 4)
+	p.TerseASRep = r.Chance(1, 4)
+	p.OmitDefaultSalt = r.Chance(1, 4)
 	if tp.Cred == "password" && p.RequirePreauth && r.Chance(1, 2) {
 		tp.Salt = fmt.Sprintf("Salt%d.realm", r.Intn(1000))
 		if r.Chance(1, 2) {
